@@ -532,6 +532,8 @@ impl<T: ItemT> TableRunner<T> {
                 }
                 r.clear();
             }
+            // `nth` variant: the prefix only (exhaustion is judged by ORACLE-ITER in the observation itself)
+            ("iter", 3) => {}
             ("iter", _) => {
                 // pre ++ fold visits every full bucket exactly once, ascending
                 if !zst {
@@ -911,6 +913,15 @@ impl<T: ItemT> TableRunner<T> {
                 }
                 quiet();
                 fmt_items(&out.0)
+            }
+            ("iter", 3) => {
+                let ix = addr_index(m);
+                let p = n(0) as usize;
+                let idx = |e: &T| if T::ZST { 0 } else { *ix.get(&(e as *const T as usize)).unwrap_or(&bad) };
+                match a[1] {
+                    "iter_mut" | "values_mut" => crate::exec::observe_iter_nth(m.iter_mut(), p, |e| idx(&**e)),
+                    _ => crate::exec::observe_iter_nth(m.iter(), p, |e| idx(*e)),
+                }
             }
             ("iter", 1) | ("iter", 2) => {
                 let ix = addr_index(m);
